@@ -323,7 +323,10 @@ class YP(object):
     def once(self, goal):
         '''once/1 calls goal only once.'''
         q = self.call(goal)
-        yield next(q)
+        for result in q:
+            yield result
+            break
+        q.close()
 
     def asserta(self, term):
         '''asserta(Term) adds Term to the facts database at the beginning.'''
